@@ -13,8 +13,8 @@
     T0  the future's owner: connect+start (await) | drop | connect, then destroy without start
     T1  the spawned operation completing with value | error | done (polls its stop token first)
     T2  (optional) a thread requesting stop on the awaiting receiver's stop source
-  The future's continuation (the `let_value` successor that reads `state_`, negotiates deletion,
-  frees the block, deregisters the stop callback and completes the receiver) runs inline on
+  The future's continuation (the `let_value` successor that deregisters the abandon stop callback,
+  reads `state_`, negotiates deletion, frees the block and completes the receiver) runs inline on
   whichever thread signals `evt_` (T1 in `complete()`, T2 in `abandon()`), or on T0 in `start()`
   when the event is already set — so every thread has a small call stack of frames.
 
@@ -28,8 +28,11 @@
   the spawned operation), `abandonWon`, `dropSawInit`, `uaf` (the block was touched
   after it was freed), `term` (`std::terminate()` reached), `bad` (double delete).
 
-  The model follows the code AS IT IS, including two behaviours that violate the property
-  (see Props/C09*.lean: `cancel_*_uaf`, `late_cancel_value_uaf`, `connect_stop_drop_terminates`).
+  The model follows the code as it is.  Two details matter for the property and are modelled
+  explicitly: the abandon callback is registered when the future is CONNECTED (not when it is
+  started) and is destroyed by the continuation before `state_` is read (so `abandon()` can never
+  run after the block was freed); `drop()` of a connected, never started future may read
+  `abandoned` / `complete` and then negotiates deletion like the continuation does.
 
   Further configurations: `late` (T2 requests stop only after T1 has finished — the available
   result must be delivered), `detached` (`spawn_detached`: no future; the completing thread deletes
@@ -59,11 +62,6 @@ structure Config where
   stopper : Bool    -- is there a thread T2 requesting stop on the awaiting receiver's source
   late : Bool := false   -- T2 first waits until T1 has finished (stop after the result is available)
   detached : Bool := false   -- spawn_detached instead of spawn_future: there is no future at all
-  /- The two flags below do NOT describe /repo.  They switch on the repairs proposed in
-     tools/checks/c09_proposed_fixes.md so that their effect on `safe` can be evaluated; every
-     configuration tied to the real code has them off. -/
-  fixA : Bool := false   -- the continuation destroys the abandon stop callback BEFORE it reads state_
-  fixB : Bool := false   -- drop() negotiates deletion when it reads abandoned / complete
 
 /-- Call frames.  Frame kinds: 0 connect, 1 start, 2 the future's continuation, 3 abandon() (the
     stop callback), 4 request_stop on the receiver's source, 5 drop(), 6 destroy a connected future,
@@ -218,26 +216,20 @@ def stepFrame (cfg : Config) (s : St) (t : Nat) (kind arg pc : Nat) : Option (Lb
       else some (tau t, push (goto s1 t 3) t 2)
     | 1, 3 => some (ev t "fut.started", pop s t)
     -- ---------------- the future's continuation (let_value successor) on thread t
-    | 2, 0 =>   -- state = state_.load()
-      if cfg.fixA && arg = 0 then   -- (proposed fix A: deregister the stop callback first)
-        match deregister s t with
-        | none => none
-        | some s1 => some (tau t, gotoA s1 t 7 0)
-      else
-      let s1 := touch s
-      if s1.st = sAbandoned then some (tau t, gotoA s1 t sAbandoned 1)
-      else some (tau t, gotoA s1 t (s1.st + 8) 2)
-    | 2, 1 =>   -- CAS abandoned -> complete; whoever FAILS deletes
-      let s1 := touch s
-      if s1.st = sAbandoned then some (tau t, gotoA { s1 with st := sComplete } t sAbandoned 3)
-      else some (tau t, gotoA s1 t (s1.st + 8) 2)
-    | 2, 2 =>   -- build the result sender (moves values_/error_ out), scope_guard runs deleter_
-      if own = 1 then some (ev t "block.free", goto (deleteBlock s lst) t 3) else none
-    | 2, 3 =>   -- nest_receiver::complete destroys the future's operation: stop callback deregistered
-      if cfg.fixA then some (tau t, goto s t 4) else
+    | 2, 0 =>   -- stopCallback.reset(): the abandon callback is deregistered BEFORE state_ is read
       match deregister s t with
       | none => none
-      | some s1 => some (tau t, goto s1 t 4)
+      | some s1 => some (tau t, goto s1 t 1)
+    | 2, 1 =>   -- state = state_.load()
+      let s1 := touch s
+      if s1.st = sAbandoned then some (tau t, gotoA s1 t sAbandoned 2)
+      else some (tau t, gotoA s1 t (s1.st + 8) 3)
+    | 2, 2 =>   -- CAS abandoned -> complete; whoever FAILS deletes
+      let s1 := touch s
+      if s1.st = sAbandoned then some (tau t, gotoA { s1 with st := sComplete } t sAbandoned 4)
+      else some (tau t, gotoA s1 t (s1.st + 8) 3)
+    | 2, 3 =>   -- build the result sender (moves values_/error_ out), scope_guard runs deleter_
+      if own = 1 then some (ev t "block.free", goto (deleteBlock s lst) t 4) else none
     | 2, 4 =>
       let o := if lst = sValue then 1 else if lst = sError then 2 else 3
       let txt := if lst = sValue then "fut.value 42" else if lst = sError then "fut.error 7" else "fut.done"
@@ -270,8 +262,8 @@ def stepFrame (cfg : Config) (s : St) (t : Nat) (kind arg pc : Nat) : Option (Lb
       let s1 := touch s
       if s1.st = sInit then some (tau t, goto s1 t 2)
       else if s1.st = sValue || s1.st = sError || s1.st = sDone then some (tau t, gotoA s1 t s1.st 4)
-      else if cfg.fixB then   -- (proposed fix B)
-        (if s1.st = sAbandoned then some (tau t, goto s1 t 7) else some (tau t, gotoA s1 t sComplete 5))
+      else if s1.st = sAbandoned then some (tau t, goto s1 t 7)   -- connected, stop requested, never started
+      else if s1.st = sComplete then some (tau t, gotoA s1 t sComplete 5)   -- … and the operation has finished
       else some (ev t "terminate", kill { s1 with term := true } t)     -- default: std::terminate()
     | 5, 2 => some (tau t, goto { touch s with opStop := true, dropSawInit := true } t 3)
     | 5, 3 =>   -- CAS init -> complete
@@ -281,7 +273,7 @@ def stepFrame (cfg : Config) (s : St) (t : Nat) (kind arg pc : Nat) : Option (Lb
     | 5, 4 => if s.evt = 2 then some (tau t, goto (touch s) t 5) else none   -- while (!evt_.ready());
     | 5, 5 => some (ev t "block.free", goto (deleteBlock s lst) t 6)
     | 5, 6 => some (ev t "fut.drop.end", pop s t)
-    | 5, 7 =>   -- (proposed fix B) CAS abandoned -> complete; whoever FAILS deletes
+    | 5, 7 =>   -- case abandoned: CAS abandoned -> complete; whoever FAILS deletes
       let s1 := touch s
       if s1.st = sAbandoned then some (tau t, goto { s1 with st := sComplete } t 6)
       else some (tau t, gotoA s1 t sComplete 5)
@@ -350,8 +342,8 @@ def final (cfg : Config) (s : St) : Bool :=
     was cancelled before the result was available; otherwise the operation's value / error -/
 def expectedOut (cfg : Config) (s : St) : Nat := if s.abandonWon then 3 else cfg.kind + 1
 
-/-- Everything the property says EXCEPT "the block is never used after deletion" and "the protocol
-    never reaches std::terminate()" (those two are `safe`'s first conjuncts):
+/-- Everything the property says except "the block is never used after deletion" and "the protocol
+    never reaches std::terminate() (unless spawn_detached + error)" (those are `safe`'s first conjuncts):
     * the block is deleted at most once, the stored result destroyed at most as often as it was
       constructed, the receiver completed at most once; abandonment implies a stop request on the
       future; a stop request on the spawned operation only comes from drop / abandon;
@@ -378,13 +370,6 @@ def safeRest (cfg : Config) (s : St) : Bool :=
 def safe (cfg : Config) (s : St) : Bool :=
   !s.uaf && (!s.term || (cfg.detached && cfg.kind = 1)) && safeRest cfg s &&
   (!(cfg.detached && cfg.kind = 1 && final cfg s) || s.term)
-
-/-- `safe` without the clause "std::terminate() is never reached" (used for the configuration in
-    which the code as it is does reach it) -/
-def safeModTerm (cfg : Config) (s : St) : Bool := !s.uaf && safeRest cfg s
-/-- `safe` without the clause "the block is never used after deletion" (used for the
-    configurations in which the code as it is does use it after deletion) -/
-def safeModUaf (cfg : Config) (s : St) : Bool := !s.term && safeRest cfg s
 
 /-- helper for witnesses: a schedule given as a list of choices reaches a state satisfying `p` -/
 theorem reach_of_run (cfg : Config) (cs : List Nat) (p : St → Bool)
